@@ -12,7 +12,7 @@ claim("C01", "PBT (rapid): typed predicate grammar vs. independent reference fil
 
 claim("C02", "PBT (rapid): typed expression-tree grammar vs. independent float64 reference evaluator (row count, key set, values)",
       "Generated-input search: thousands of (table, select list, WHERE) triples per run judged by a reference evaluator written from the statement; held on everything explored, not a proof.",
-      "Trusts the reference evaluator; division/modulo by zero, bitwise on negatives/fractions and unary operators on NULL are left out as unspecified; ~x accepted in both readings.",
+      "Trusts the reference evaluator; division/modulo by zero, bitwise on negatives/fractions, arithmetic on arrays and unary operators on NULL are left out as unspecified; ~x accepted in both readings (and ~~x as the truncated or the rounded operand); paths through arrays of objects map over the elements.",
       "DESIGN.md 4/C02")
 claim("C03", "PBT (rapid): grouped/whole-table aggregate query grammar vs. reference grouping in first-appearance order + conservation law + 3x re-execution",
       "Generated-input search with sequence equality against a reference group-by; three executions per case must agree; held on everything explored.",
@@ -24,11 +24,11 @@ claim("C04", "PBT (rapid): join grammar vs. nested-loop reference multiset + met
       "DESIGN.md 4/C04")
 claim("C05", "PBT (rapid): ORDER BY/LIMIT/OFFSET grammar vs. validity predicates (permutation, adjacent-pair order, NULLs last, exact window arithmetic)",
       "Generated-input search with validity predicates (not one expected answer, ties may be ordered freely); held on everything explored.",
-      "Tie order unchecked by design; NULL keys only with a single sort key.",
+      "Tie order unchecked by design; NULL keys only with a single sort key. Also: output names that are aliases (fresh / swapped), two windows of one table in one statement, the window of a UNION ALL of the query with itself.",
       "DESIGN.md 4/C05")
 claim("C06", "PBT (rapid): DISTINCT / UNION-chain grammar vs. reference first-occurrence dedup and left-associative union model",
       "Generated-input search against a reference model of DISTINCT and UNION [ALL] chains with optional LIMIT; held on everything explored.",
-      "Same column kind per output column across branches; no ORDER BY on unions.",
+      "Same column kind per output column across branches; no ORDER BY on unions (DISTINCT may be ordered by a partial key: compared as multiset); branches may carry a LIMIT / OFFSET of their own.",
       "DESIGN.md 4/C06")
 claim("C07", "PBT (rapid): metamorphic composed-vs-staged execution of CTEs/derived tables/subqueries + reference EXISTS",
       "Generated-input search: each composed query is compared with the staged evaluation over materialised intermediates executed by the same engine, so the oracle is independent of C01-C05 semantics; held on everything explored.",
@@ -45,7 +45,7 @@ claim("C09", "PBT (rapid): shape-directed selector generator vs. independent ref
 
 claim("C15", "PBT: exhaustive enumeration of a finite representative domain (all ordered pairs, all same-kind triples) + rapid random typed values vs. exact math/big rational oracle and algebraic laws",
       "Every run enumerates all ordered pairs and same-kind triples of a boundary-value domain over the 12 Go numeric types and strings, then searches random typed pairs/triples; oracle is exact rational comparison; exhaustive only over that finite domain.",
-      "Float-vs-string pairs with |float| >= 10^6 are judged by the laws only (decimal text ambiguous); |v| <= 2^53.",
+      "Float-vs-string pairs with |float| >= 10^6 are judged by the laws only (decimal text ambiguous); floats within |v| <= 2^53, 64-bit boundary integers only against integers and strings. A quarter of the random pairs also meet inside the engine (one-row equi joins in both plans, IN / NOT IN lists) and must pair / match exactly when the values are equal.",
       "DESIGN.md 4/C15")
 
 claim("C16", "PBT (rapid): template grammar with decoys x hostile argument alphabet; oracle = library parser's canonical AST text of the sanitized query vs. the template with harness-rendered literals, echo round-trip through New/Exec, error cases",
@@ -65,7 +65,7 @@ claim("C18", "PBT (rapid): per-function argument generators (scalars of every ki
 
 claim("C20", "PBT (rapid), model-based: generated histories of queries sharing one variable map vs. a sequential register model (rows in source order, items left to right), map compared after every query",
       "Generated histories (1-5 queries, preset maps, read-modify-write patterns) replayed against a register model; every GETVAR column, the absence of SETVAR columns and the caller's map after each Exec are compared; held on everything explored.",
-      "No ORDER BY/GROUP BY/LIMIT/joins (evaluation order unspecified there); WHERE does not read variables.",
+      "No ORDER BY/LIMIT/joins (evaluation order unspecified there); WHERE does not read variables. Registers also under look-alike names (7 / 07 / +7 ...), constants named like the registers, SETVAR inside CASE branches, grouped forms, union arms, values beyond 2^53.",
       "DESIGN.md 4/C20")
 
 claim("C11", "PBT (rapid): 47 wide query constructs x Wrapped x injected part-way failures x re-execution; invariant = cycle-safe structural comparison of the live input against a deep snapshot",
@@ -83,7 +83,7 @@ claim("C19", "Fault enumeration driven by PBT (rapid): for each generated (query
 
 claim("C14", "PBT (rapid) with harness-owned completion schedules: generated select lists of instrumented functions under none/ASYNC/SPINASYNC/SPIN/ONCE, release permutation enforced through a gate; observations at Exec return (invocation/completion counters) + reference values + metamorphic qualified-vs-unqualified equality; a shard under the race detector",
       "Generated-input search in which the harness owns the completion order of all asynchronous calls (arrival, reversed, random permutations); counters are read the moment Exec returns; held on everything explored. Goroutine schedules beyond the completion order are sampled, not enumerated.",
-      "No LIMIT/OFFSET; ONCE with constant arguments; failing ASYNC functions are C10's domain.",
+      "No LIMIT/OFFSET; failing ASYNC functions are C10's domain. Up to 40 rows x 5 gated calls in flight; arguments may read a register written per row (SETVAR first in the select list).",
       "DESIGN.md 4/C14")
 
 claim("C10", "PBT (rapid) in a child process: grammar-valid queries x all 2^3 option sets, token mutations, byte strings, 125 hostile constants (also mutated), injected failing/panicking functions under every execution strategy at a generated invocation index, cyclic-format class; monitors = child exit status, Go fatal messages, confirmed watchdog; native go fuzz (thorough)",
